@@ -3,7 +3,7 @@ import os
 from lib import kit
 
 
-def pipeline(ctx, replay=None, heap_only=False):
+def pipeline(ctx, replay=None, parts=("tlc", "random")):
     """Runs the ring-buffer component; returns (functional rejections, heap rejections)."""
     tier = ctx.tier
     hx = ctx.cargo_build("hx_ring")
@@ -13,12 +13,13 @@ def pipeline(ctx, replay=None, heap_only=False):
     else:
         stim = os.path.join(ctx.work, "ring_stim.ndjson")
         cfg = "MC_RingBuffer_%s.cfg" % tier
-        ctx.mc("MC_RingBuffer", cfg, workers=4, env={"STIM_OUT": stim}, need_actions=["StepB", "StepF"])
-        ctx.exhaustive = True
-        ctx.extra["mc_constants"] = {"MaxCap": 3 if tier == "quick" else 4, "Vals": [1, 2]}
+        if "tlc" in parts:
+            ctx.mc("MC_RingBuffer", cfg, workers=4, env={"STIM_OUT": stim}, need_actions=["StepB", "StepF"])
+            ctx.exhaustive = True
+            ctx.extra["mc_constants"] = {"MaxCap": 3 if tier == "quick" else 4, "Vals": [1, 2]}
         rnd = os.path.join(ctx.work, "ring_rand.ndjson")
         ctx.harness(hx, ["gen", str(ctx.seed), tier, rnd])
-        stim_files = [("tlc", stim), ("random", rnd)]
+        stim_files = [x for x in [("tlc", stim), ("random", rnd)] if x[0] in parts]
     for name, sf in stim_files:
         tr = os.path.join(ctx.work, "ring_trace_%s.ndjson" % name)
         rej += ctx.run_stimuli(hx, sf, tr, "ring")
